@@ -45,6 +45,8 @@ def expected_keys(expect, design):
     """Set of acceptable (lower-cased) assembly keys for an expectation."""
     if expect in ("Haplotig", "Contaminant", "FalseDuplicate"):
         return {expect.lower()}
+    if expect in (None, "none"):
+        return {"none"}
     if design.get("haps"):
         h = design["haps"]
         idx = 0 if expect == "hap1" else 1
@@ -130,7 +132,10 @@ def oracle(case, outcome, ctx):
             want = {"contaminant"}
             ctx.count("absent:target-mode")
         elif design.get("haps"):
-            want = expected_keys("hap1" if sname.upper().startswith("HAP1") else "hap2", design)
+            up = sname.upper()
+            want = expected_keys("hap1" if up.startswith("HAP1") else "hap2" if up.startswith("HAP2") else "none", design)
+            if not up.startswith("HAP"):
+                ctx.count("absent:unprefixed-in-haplotype-map")
             ctx.count("absent:haplotype-by-name")
         else:
             want = {"none"}
@@ -242,6 +247,8 @@ def gates(c, tier):
         "routed:unloc:painted:later": 100,
         "absent:target-mode": 20,
         "absent:haplotype-by-name": 20,
+        "absent:unprefixed-in-haplotype-map": 10,
+        "label:tag:unprefixed-scaffold-in-haplotype-map": 100,
         "absent:plain": 50,
         "label:tag:primary": 50,
         "label:tag:haplotype-from-names-only": 50,
